@@ -507,6 +507,11 @@ def core_effects():
     out.append(("P0", ["and", ["r"], ["increase", ["g"], "1"]]))
     out.append(("P1", ["and", ["p", "?x"], ["forall", ["?z", "-", "t1"], ["when", ["q", "?z", "?x"], ["not", ["q", "?z", "?x"]]]]]))
     out.append(("P3", ["and", ["not", ["p", "?x"]], ["when", ["p", "?y"], ["p", "?x"]]]))
+    # a numeric effect inside a quantified conditional effect whose right-hand side reads a fluent that another effect of the
+    # same action changes (all right-hand sides are about the state before the action)
+    out.append(("P2", ["and", ["decrease", ["g"], "2"], ["forall", ["?z", "-", "t1"], ["when", ["p", "?z"], ["increase", ["f", "?z"], ["g"]]]]]))
+    out.append(("P2", ["and", ["assign", ["f", "?x"], "0"],
+                       ["forall", ["?z", "-", "t1"], ["when", ["q", "?x", "?z"], ["increase", ["g"], ["f", "?x"]]]]]))
     out.append(("P2", ["and", ["assign", ["f", "?x"], ["-", "0", ["g"]]], ["increase", ["f", "?y"], ["/", "1", ["g"]]]]))
     out.append(("P2", ["and", ["decrease", ["g"], ["-", ["f", "?x"], "0"]], ["when", [">", ["-", "0", ["f", "?x"]], "1"], ["p", "?x"]]]))
     # a quantified effect whose variable has the name of an action parameter, over another type (a subtype / an unrelated type):
